@@ -169,7 +169,7 @@ func genC06(r *Rand, tier string, i int) *h.Scenario {
 	p.PExplicitPrio = 0.4
 	p.PDelay = 0
 	p.PTerminal = 0.1
-	p.PQueueAfter = 0
+	p.PQueueAfter = 0.15
 	p.PPop = 0.3
 	p.PrioAfterFinish = true
 	p.PPostTerminalOps = 0.5
@@ -192,6 +192,7 @@ type prioAssign struct {
 	inv, ret int
 	prio     int
 	lazy     bool
+	maybe    bool // may or may not have taken effect (raced with a hand-over or with shutdown)
 }
 
 func judgeC06(hi *Hist) []*Violation {
@@ -200,11 +201,6 @@ func judgeC06(hi *Hist) []*Violation {
 	}
 	frames := ParseFrames(hi)
 	facts := Facts(hi)
-	for _, bf := range facts {
-		if bf.Added && bf.Queued {
-			return nil // C17's business
-		}
-	}
 	var out []*Violation
 	add := func(o, f string, a ...interface{}) {
 		if len(out) == 0 {
@@ -234,7 +230,7 @@ func judgeC06(hi *Hist) []*Violation {
 		if bs.HasPrio {
 			p = bs.Prio
 		}
-		hist[a.bar] = append(hist[a.bar], prioAssign{a.inv, a.ret, p, false})
+		hist[a.bar] = append(hist[a.bar], prioAssign{a.inv, a.ret, p, false, false})
 	}
 	for _, op := range hi.Ops {
 		if op.Ret < 0 {
@@ -245,15 +241,54 @@ func judgeC06(hi *Hist) []*Violation {
 		}
 		switch op.Op.K {
 		case h.OpSetPriority:
-			hist[op.Op.Bar] = append(hist[op.Op.Bar], prioAssign{op.Inv, op.Ret, int(op.Op.N), false})
+			hist[op.Op.Bar] = append(hist[op.Op.Bar], prioAssign{op.Inv, op.Ret, int(op.Op.N), false, false})
 		case h.OpUpdatePriority:
-			hist[op.Op.Bar] = append(hist[op.Op.Bar], prioAssign{op.Inv, op.Ret, int(op.Op.N), op.Op.Flag})
+			hist[op.Op.Bar] = append(hist[op.Op.Bar], prioAssign{op.Inv, op.Ret, int(op.Op.N), op.Op.Flag, false})
 		}
 	}
 	lastFrameOf := map[int]int{}
+	firstFrameOf := map[int]int{}
 	for k, f := range frames {
 		for _, g := range f.Groups {
 			lastFrameOf[g.Bar] = k
+			if _, ok := firstFrameOf[g.Bar]; !ok {
+				firstFrameOf[g.Bar] = k
+			}
+		}
+	}
+	// a bar queued after another takes the place its predecessor has when it leaves: it inherits the
+	// predecessor's assignments up to the hand-over; what was assigned to the waiting bar itself does not count
+	for range facts {
+		for _, bf := range facts {
+			if !bf.Added || !bf.Queued {
+				continue
+			}
+			first, shown := firstFrameOf[bf.Idx]
+			if !shown {
+				continue
+			}
+			handover := cycleFirstEvent(hi, frames, first)
+			if first > 0 {
+				handover = cycleFirstEvent(hi, frames, first-1)
+			}
+			var list []prioAssign
+			for _, a := range hist[bf.Pred] {
+				if a.inv < frames[first].W.At {
+					if a.ret >= handover {
+						a.maybe = true // still in flight when the predecessor handed over: inherited or not
+					}
+					list = append(list, a)
+				}
+			}
+			for _, op := range hi.Ops {
+				if op.Op.Bar != bf.Idx || op.Ret < 0 || (op.Op.K != h.OpSetPriority && op.Op.K != h.OpUpdatePriority) {
+					continue
+				}
+				if op.Ret >= handover {
+					list = append(list, prioAssign{op.Inv, op.Ret, int(op.Op.N), op.Op.K == h.OpUpdatePriority && op.Op.Flag, op.Inv < frames[first].W.At})
+				}
+			}
+			hist[bf.Idx] = list
 		}
 	}
 	for k, f := range frames {
@@ -292,7 +327,7 @@ func judgeC06(hi *Hist) []*Violation {
 			sort.Slice(ord, func(i, j int) bool { return ord[i].ret < ord[j].ret })
 			for _, a := range ord {
 				settledBefore := a.ret < lo || (k == 0 && a.ret < hiB)
-				maybe := hi.WaitIn >= 0 && a.ret > hi.WaitIn
+				maybe := a.maybe || (hi.WaitIn >= 0 && a.ret > hi.WaitIn)
 				switch {
 				case settledBefore && !maybe:
 					m.set = []int{a.prio}
